@@ -595,11 +595,13 @@ fn mode_dimacs(args: &Args) {
         let bytes = dimacs_mode::gen_file(&mut r);
         let chunk_seed = if r.chance(1, 2) { Some(r.next()) } else { None };
         let id = format!("{}-{}", args.seed, i);
-        run_case(&id, &format!("scen=dimacs seed={} chunks={}", case_seed, chunk_seed.is_some()), |out| {
-            let res = dimacs_mode::run_real(&bytes, chunk_seed);
+        let wcnf = args.kv.get("wcnf").map(|s| s == "1").unwrap_or(false);
+        let bytes = if wcnf { dimacs_mode::gen_wcnf(&mut r) } else { bytes };
+        run_case(&id, &format!("scen={} seed={} chunks={}", if wcnf { "wcnf" } else { "dimacs" }, case_seed, chunk_seed.is_some()), |out| {
+            let res = if wcnf { dimacs_mode::run_real_wcnf(&bytes, chunk_seed) } else { dimacs_mode::run_real(&bytes, chunk_seed) };
             let toks: Vec<String> = bytes.iter().map(|b| b.to_string()).collect();
             out.meta(format!("text {:?}", String::from_utf8_lossy(&bytes)));
-            out.push(format!("dimacs {} {} :: {}", bytes.len(), toks.join(" "), res));
+            out.push(format!("{} {} {} :: {}", if wcnf { "wcnf" } else { "dimacs" }, bytes.len(), toks.join(" "), res));
         });
     }
 }
